@@ -301,6 +301,20 @@ def r7(cx):
     # the registration is released in commit only after Core::commit succeeded
     cb = cx.f.coroutine_of("Transaction::commit")
     cc = sites(cx, cb, "Core::commit")
+    # the conflict window handed to the pipeline is the horizon recorded at begin, for every transaction mode
+    for c in cc:
+        o = origin_of_operand(cb, c.args[3])
+        cx.check("start_seq_num" in o.field_names() and not o.calls and not o.ops and not (o.field_names() - {"start_seq_num", ""}),
+                 "commit validates against the transaction's begin-time horizon (Transaction.start_seq_num, unmodified)", "conflict-window-source", c.where(),
+                 "Transaction::commit passes a conflict-validation sequence that is not (only) its begin-time start_seq_num (%s): commits between begin and commit are invisible "
+                 "to the write-write check" % (sorted(o.field_names()) + [x.primary for x in o.calls]))
+    pb = cx.f.coroutine_of("Core::commit")
+    for c in sites(cx, pb, "CommitPipeline::commit"):
+        cx.check("start_seq" in origin_of_operand(pb, c.args[3]).upvar_names and not origin_of_operand(pb, c.args[3]).ops, "Core::commit forwards start_seq unchanged", "conflict-window-forward", c.where())
+    ck = sites(cx, commit_body(cx), "CommitOracle::check")
+    for c in ck:
+        o = origin_of_operand(commit_body(cx), c.args[2])
+        cx.check("start_seq" in o.upvar_names and not o.ops and not o.calls, "oracle.check receives the caller's start_seq unchanged", "conflict-window-check", c.where())
     rel = []
     for i, j, lhs, rv, line in cb.assigns():
         fs = [p for p in lhs[1:] if isinstance(p, list) and p[0] == "f"]
